@@ -179,6 +179,9 @@ func finish(c *Ctx, verifDir, prop, tier string, seed int, results []ruleResult,
 		for _, o := range res.obs {
 			total++
 			if o.status == Discharged {
+				if os.Getenv("OTTOCHECK_VERBOSE") != "" {
+					fmt.Printf("ok %s site=%s: %s\n", o.Key, o.Site, o.Detail)
+				}
 				discharged++
 				nd++
 				if len(sites) < 3 {
